@@ -34,6 +34,15 @@ var ErrNestingTooDeep = errors.New("expression is nested too deeply")
 // ends the process rather than returning an error.
 const MaxNesting = 10000
 
+// ErrTooLong is returned for an expression of more than MaxTokens tokens.
+var ErrTooLong = errors.New("expression is too long")
+
+// MaxTokens bounds the length of an expression. A chain of binary operators or of
+// path steps is as deep a tree as it is long - the grammar is left-recursive - and
+// the visitor and the evaluator descend it one stack frame per operator, so that
+// length is bounded for the same reason as nesting.
+const MaxTokens = 1 << 20
+
 // nesting returns the deepest nesting of brackets and prefix signs among the tokens.
 func nesting(tokens []antlr.Token) int {
 	deepest, open, signs := 0, 0, 0
@@ -70,6 +79,9 @@ func Tree(expr string) (grammar.IProgContext, error) {
 	lexer.AddErrorListener(errorListener)
 	tokens := antlr.NewCommonTokenStream(lexer, antlr.TokenDefaultChannel)
 	tokens.Fill()
+	if count := len(tokens.GetAllTokens()); count > MaxTokens {
+		return nil, fmt.Errorf("%w: %d tokens, at most %d are supported", ErrTooLong, count, MaxTokens)
+	}
 	if depth := nesting(tokens.GetAllTokens()); depth > MaxNesting {
 		return nil, fmt.Errorf("%w: %d levels, at most %d are supported", ErrNestingTooDeep, depth, MaxNesting)
 	}
